@@ -9,6 +9,8 @@ structure DS where
   gp : Nat := 100
   del : Bool := true
   journal : Journal := []
+  /-- the blocks as they were delivered to the live node, each with its file name (`d …` lines) -/
+  deliv : History := []
   /-- state of the most recently restarted node (for `ext`) -/
   cur : State := { gp := 100 }
 
@@ -49,12 +51,22 @@ def step (d : DS) (line : String) : DS × String :=
   | "flags" :: kvs => ({ d with cf := kvs.foldl Drv.Chain.setFlag d.cf, sf := kvs.foldl setSFlag d.sf }, "-")
   | ["reset", gp, del] =>
     match gp.toNat? with
-    | some g => ({ d with gp := g, del := Drv.Chain.bit del, journal := [], cur := { gp := g } }, "-")
+    | some g => ({ d with gp := g, del := Drv.Chain.bit del, journal := [], deliv := [], cur := { gp := g } }, "-")
     | none => (d, "bad-op")
   | "w" :: ts :: hk :: rest =>
     match ts.toNat?, hk.toNat?, parseBlock rest with
     | some ts, some hk, some b => ({ d with journal := d.journal ++ [Op.write ⟨ts, hk⟩ b] }, "-")
     | _, _, _ => (d, "bad-op")
+  | "d" :: ts :: hk :: rest =>
+    match ts.toNat?, hk.toNat?, parseBlock rest with
+    | some ts, some hk, some b => ({ d with deliv := d.deliv ++ [(⟨ts, hk⟩, b)] }, "-")
+    | _, _, _ => (d, "bad-op")
+  -- what the model's live node writes for the delivered history (`journalOf`: one file per accepted block, in order)
+  | "journal" :: _ =>
+    (d, "writes=" ++ ",".intercalate ((journalOf d.cf d.gp d.deliv).filterMap fun o =>
+      match o with
+      | .write n _ => some s!"{n.ts}:{n.hk}"
+      | _ => none))
   | ["r", ts, hk] =>
     match ts.toNat?, hk.toNat? with
     | some ts, some hk => ({ d with journal := d.journal ++ [Op.remove ⟨ts, hk⟩] }, "-")
